@@ -127,6 +127,10 @@ def main():
         # ... and a flat sequence whose records differ only in the sign of a zero (0.0 == -0.0, but they are different values)
         corpus.append(("dataset", "z0", (("seq", "q", (("base", "a", "i", (), ()), ("base", "f", "f", (), ()), ("base", "d", "d", (), ())),
                                            ((1, 0.0, 0.0), (1, -0.0, 0.0), (1, 0.0, -0.0), (1, -0.0, -0.0), (1, 0.0, 0.0))),)))
+        # ... and a nested sequence whose FIRST record has an empty inner sequence (the inner types come from a later record)
+        corpus.append(("dataset", "ne0", (("seq", "o", (("base", "id", "i", (), ()),
+                                                          ("seq", "inner", (("base", "x", "i", (), ()), ("base", "s", "S", (), ())), ())),
+                                            ((1, ()), (2, ((10, "ab"), (20, "cde"))), (3, ()), (4, ((30, "z"),)))),)))
         while done < n and attempts < 20 * n:
             attempts += 1
             desc = corpus.pop(0) if corpus else G.gen_dataset(rng)
